@@ -1399,6 +1399,9 @@ var ZipmapFunc = function.New(&function.Spec{
 		for it := keys.ElementIterator(); it.Next(); {
 			_, v := it.Element()
 			v, vMarks := v.Unmark()
+			if v.IsNull() {
+				return cty.NilVal, function.NewArgErrorf(0, "element %d of the keys list is null; a map key or attribute name cannot be null", i)
+			}
 			val := values.Index(cty.NumberIntVal(int64(i)))
 			output[v.AsString()] = val
 
